@@ -102,6 +102,7 @@ def build(tier, seed):
         for w in words(SIGMA, 2, 3, nonzero=True):
             cases.append({'kind': 'decimal', 'w': list(w), 'dt': dts, 'kmax': 12 if quick else 45})
     return {
+        'rule_more': "start=True: the series is the reference moved by some whole number of samples (whole-step stt and travel time); 'decimal' cases: dt in %s x words of length <= 3 x travel times k*dt/2 (float product and rounded decimal), set-valued oracle at the jump" % (list(DEC_DTS),),
         'cases': cases,
         'rule': 'energy: all non-zero words over {-1,0,2} of length 2..%d, dt = 0.5, x nodal in {T,F} x reductions '
                 '{(1,1), (0.8,0.5), per-row arrays with up != down} (one pool case each) x travel-time sets {each of '
